@@ -71,7 +71,7 @@ def oracle(cls, w, ri, rj):
     return total
 
 
-def frame(rows, cols="AB", index=None, extra=False):
+def frame(rows, cols="AB", index=None, extra=False, reverse_columns=False):
     import pandas as pd
     data = {}
     if "A" in cols:
@@ -84,6 +84,8 @@ def frame(rows, cols="AB", index=None, extra=False):
         data["Epitope"] = ["GILGFVFTL"] * len(rows)
         data["clone_count"] = list(range(len(rows)))
     df = pd.DataFrame(data)
+    if reverse_columns:
+        df = df[list(reversed(list(df.columns)))]
     n = len(rows)
     if index == "shifted":
         df.index = range(5, 5 + n)
@@ -134,7 +136,8 @@ def k_metric(ctx, cls, w, anchors, comps, index=None, extra=False, cols="AB"):
     except Exception as e:
         ctx.violation(f"{cls}:constructor:raised", f"constructor rejected its documented weights: {e}", w, None)
         return
-    dfa, dfb = frame(anchors, cols, index, extra), frame(comps, cols, index, extra)
+    rev = (len(anchors) + len(comps)) % 2 == 1          # column order of the tables must not matter
+    dfa, dfb = frame(anchors, cols, index, extra, reverse_columns=rev), frame(comps, cols, index, extra, reverse_columns=not rev and len(comps) % 3 == 0)
     fa, fb = canon.fingerprint(dfa), canon.fingerprint(dfb)
     out = ctx.call(metric.calc_cdist_matrix, dfa, dfb)
     tcls = "paired-table" if cols == "AB" else "single-chain-table"
